@@ -129,6 +129,11 @@ def derivations(ft: Features, height: int, npool: int, max_per_level: int = 400)
         add(IMP(a, IMP(b, a)), apply('proof-rule-prop-1', frames, {'ph0': a, 'ph1': b}, []), 0)
     for a, b, c in itertools.product(pool[:3], repeat=3):
         add(IMP(IMP(a, IMP(b, c)), IMP(IMP(a, b), IMP(a, c))), apply('proof-rule-prop-2', frames, {'ph0': a, 'ph1': b, 'ph2': c}, []), 0)
+    # targets with three metavariables
+    p0, p1, p2 = V('ph0'), V('ph1'), V('ph2')
+    add(IMP(IMP(p0, IMP(p1, p2)), IMP(IMP(p0, p1), IMP(p0, p2))), apply('proof-rule-prop-2', frames, {'ph0': p0, 'ph1': p1, 'ph2': p2}, []), 0)
+    add(IMP(IMP(p2, IMP(p0, p1)), IMP(IMP(p2, p0), IMP(p2, p1))), apply('proof-rule-prop-2', frames, {'ph0': p2, 'ph1': p0, 'ph2': p1}, []), 0)
+    add(IMP(p2, IMP(IMP(p1, p0), p2)), apply('proof-rule-prop-1', frames, {'ph0': p2, 'ph1': IMP(p1, p0)}, []), 0)
     add(IMP(A('c0'), A('c1')), ('ax-a', []), 0)
     add(A('\\f', A('c0')), ('ax-b', []), 0)
     for a, b in itertools.product(pool[:4], repeat=2):
